@@ -90,6 +90,8 @@ type Exec struct {
 	pendingOut []*Obs
 	replayPre  int
 	privCells  []privCell
+	// axioms requested while a quantified formula was being built (emitted when it is complete)
+	pendingAxioms []string
 }
 
 type Frame struct {
